@@ -191,10 +191,53 @@ fn violation_key(family: &str, o: &Outcome, how: &str) -> String {
 }
 
 fn judge(c: &Case, l: &mut Local) {
+    judge_b(c, 30, l)
+}
+
+/// long `#elif` chains and deep nestings, under small and default iteration budgets: deciding conditions from
+/// constants is not a matter of the resolution budget
+fn long_cases() -> Vec<(Case, usize)> {
+    let m = |k: u8| Item::Marker(k);
+    let mut out = vec![];
+    for n in [2usize, 5, 9, 10, 11, 12, 16] {
+        for sel in [0usize, n / 2, n - 1, n] {
+            for has_else in [false, true] {
+                let chain: Vec<(E, Vec<Item>)> = (0..n).map(|i| (eq(v("SEL"), int(i as i64)), vec![m(0x10 + i as u8), konst(&format!("ARM{}", i), int(i as i64))])).collect();
+                let prog = vec![konst("SEL", int(sel as i64)), m(0x80), Item::If(chain, if has_else { Some(vec![m(0xee)]) } else { None }), m(0xff)];
+                for budget in [2usize, 3, 10] {
+                    out.push((Case { family: "long", coord: format!("chain n{} sel{} else{} iters{}", n, sel, has_else, budget), prog: prog.clone(), defines: vec![] }, budget));
+                }
+            }
+        }
+    }
+    for depth in [2usize, 3, 4, 6, 10, 11, 12] {
+        for innermost_decl in [false, true] {
+            let mut body: Vec<Item> = vec![m(0x40 + depth as u8)];
+            if innermost_decl {
+                body.push(konst("DEEP", int(7)));
+            }
+            for d in (0..depth).rev() {
+                body = vec![m(0x20 + d as u8), Item::If(vec![(eq(v("ON"), int(1)), body)], None)];
+            }
+            let mut prog = vec![konst("ON", int(1)), m(0x80)];
+            prog.extend(body);
+            if innermost_decl {
+                prog.push(Item::Use("DEEP".into()));
+            }
+            prog.push(m(0xff));
+            for budget in [2usize, 3, 10] {
+                out.push((Case { family: "long", coord: format!("nest depth{} decl{} iters{}", depth, innermost_decl, budget), prog: prog.clone(), defines: vec![] }, budget));
+            }
+        }
+    }
+    out
+}
+
+fn judge_b(c: &Case, budget: usize, l: &mut Local) {
     let text = text_of(&c.prog);
     let mdefs: Vec<(String, RVal)> = c.defines.iter().map(|(n, d)| (n.clone(), d.model(false))).collect();
     let o = ifworld(&c.prog, &mdefs);
-    let mut opts = run::Opts::iters(30);
+    let mut opts = run::Opts::iters(budget);
     opts.defines = c.defines.iter().map(|(n, d)| (n.clone(), d.real())).collect();
     l.eval();
     let obs = run::assemble_str(&text, &opts);
@@ -756,6 +799,15 @@ struct DriveCase {
 }
 
 fn drive_args(defines: &[(String, DV)], style: usize) -> Vec<String> {
+    if style == 3 {
+        // the defines stand in the FIRST of two output groups: a global option counts wherever it appears
+        let mut a = vec!["main.asm".to_string(), "-q".to_string()];
+        for (n, d) in defines {
+            a.push(format!("-d{}{}", n, d.spelling()));
+        }
+        a.extend(["-f", "hexstr", "-o", "out.txt", "--", "-f", "binary", "-o", "out2.bin"].iter().map(|s| s.to_string()));
+        return a;
+    }
     let mut a = vec!["main.asm".to_string(), "-q".to_string(), "-f".to_string(), "hexstr".to_string(), "-o".to_string(), "out.txt".to_string()];
     for (n, d) in defines {
         let nv = format!("{}{}", n, d.spelling());
@@ -785,7 +837,7 @@ fn drive_cases(thorough: bool) -> Vec<DriveCase> {
                 for da in 0..8usize {
                     for (bi, db) in bopts.iter().enumerate() {
                         for (xi, x) in extras.iter().enumerate() {
-                            for style in 0..3 {
+                            for style in 0..4 {
                                 let mut defines = vec![];
                                 if let Some((n, d)) = x {
                                     defines.push((n.to_string(), *d));
@@ -889,7 +941,7 @@ pub fn run(ctx: &Ctx) -> Report {
             "def": format!("template with 5 first conditions x {} second conditions x C declared at top / in arm 1,2,3 / nowhere x {} base valuations of (A,B) [(true,false), (0,1), thorough: (false,1)], x every assignment of {{absent, no value, true, false, 0, 1, -1, 0x10}} to A, B, C (512) x 9 extra defines (none, a.b=1, a.b, a (label with children), Q (undeclared), DEADK (dead arm only), lab (label), LIVE1 (declared in arm 1), fun (a #fn function))", def_c2(ctx.thorough).len(), if ctx.thorough { 3 } else { 2 }),
             "ref": "every chain shape x every truth assignment of its conditions (constants T / F) x every arm's label and constant mentioned from live code (#d8 name, or R = name) before / after the tree",
             "edge": "19 undecidable / non-boolean / control conditions x 6 chain positions (first, elif after false, elif after true, nested in live arm, nested in dead arm, nested in else) x prelude before/after x chain first / last / both / neither item of the file; dead-arm name x top-level twin (constant/label/none) x define x use; hierarchical p.q declared in a live / dead arm x define x dependent chain before / after",
-            "drive": "def template sub-grid through driver::drive, spellings -dN=V / --define=N=V / --define N=V, output compared via -f hexstr -o out.txt",
+            "drive": "def template sub-grid through driver::drive, spellings -dN=V / --define=N=V / --define N=V / defines in the first of two output groups, output compared via -f hexstr -o out.txt",
         }),
     );
     rep.extra("cases", json!({"tree": trees.n, "feed": feeds.len(), "def": defs.n, "edge": edges.len(), "ref": refs.len(), "drive": drives.len()}));
@@ -913,6 +965,10 @@ pub fn run(ctx: &Ctx) -> Report {
     }
     if want("drive") {
         rep.absorb(par_cases(&drives, judge_drive));
+    }
+    if want("long") {
+        let longs = long_cases();
+        rep.absorb(par_cases(&longs, |(c, b), l| judge_b(c, *b, l)));
     }
     if only.is_some() {
         rep.exhaustive = false;
